@@ -79,7 +79,29 @@ func vFirstQueryAgrees(c, t *Cache, q int, m *vFS) bool {
 		un2, err2 := t.InjectDevices(&oci.Spec{}, probe)
 		return (err1 == nil) == (err2 == nil) && len(un1) == len(un2) && vSameStrs(c.ListDevices(), t.ListDevices())
 	case 6:
-		return vSameKeysErr(c.GetErrors(), t.GetErrors()) && vSameStrs(c.ListDevices(), t.ListDevices())
+		// files in error: those of the reference; on top, a cache without a watcher may report its directories (watcher errors)
+		ce, te := c.GetErrors(), t.GetErrors()
+		ok := true
+		for k := range te {
+			if _, has := ce[k]; !has {
+				ok = false
+			}
+		}
+		for k := range ce {
+			if _, has := te[k]; has {
+				continue
+			}
+			isDir := false
+			for _, d := range m.dirs {
+				if d.path == k {
+					isDir = true
+				}
+			}
+			if !isDir {
+				ok = false
+			}
+		}
+		return ok && vSameStrs(c.ListDevices(), t.ListDevices())
 	}
 	return vSameStrs(c.ListDevices(), t.ListDevices())
 }
@@ -158,7 +180,7 @@ func H_C20_reconfigure() {
 		vreach("shortage")
 		g := newCache(WithSpecDirs(dirs...), WithAutoRefresh(false))
 		vassert("without-watcher-queries-see-current-contents", vSameStrs(c.ListDevices(), g.ListDevices()))
-		q := nondetChoice("query", 6) // which query is the first one after each later change: every query must notice it
+		q := nondetChoice("query", 7) // which query is the first one after each later change: every query must notice it
 		// the shortage ends; the directories keep changing: every query is still answered from the current contents
 		// (a cache without a working event reader must not start trusting a watcher nobody reads)
 		vShortage = false
